@@ -110,7 +110,7 @@ Lemma conns_queue_ops :
   (forall s qn u, conns (queue_push s qn u) = conns s) /\
   (forall s qn u, conns (queue_ackmsg s qn u) = conns s) /\
   (forall s qn u, conns (queue_requeue s qn u) = conns s) /\
-  (forall s qn tag, conns (queue_remove_consumer s qn tag) = conns s).
+  (forall s qn c h tag, conns (queue_remove_consumer s qn c h tag) = conns s).
 Proof.
   repeat split; intros.
   - unfold queue_push. destruct (get_queue s qn); auto. destruct (get_msg s u) as [m|]; auto. destruct (negb _); auto.
@@ -158,7 +158,7 @@ Proof.
   apply map_nil_of_nil.
 Qed.
 
-Lemma G_queue_remove_consumer s qn tag : allch P s -> allch P (queue_remove_consumer s qn tag).
+Lemma G_queue_remove_consumer s qn c h tag : allch P s -> allch P (queue_remove_consumer s qn c h tag).
 Proof. intros H. same_conns. exact H. Qed.
 
 Lemma G_consumer_stop s c h tag : allch P s -> allch P (consumer_stop s c h tag).
